@@ -81,7 +81,9 @@ def is_module_valued(repo: Repo, ci: ClassInfo, attr: str) -> bool:
                     if e.kind == 'setattr' and e.data[0] == SELF and e.data[1] == attr:
                         v = e.data[2]
                         cl = callee(v)
-                        if cl and (cl.startswith('torch.nn.') or (
+                        if cl and ((cl.startswith('torch.nn.') and
+                                    cl.split('.')[-1][:1].isupper() and
+                                    'functional' not in cl and 'Parameter' not in cl) or (
                                 cl in repo.classes and any(
                                     'torch.nn' in str(b) for b in repo.mro(repo.classes[cl])))):
                             return True
@@ -96,6 +98,13 @@ def is_module_valued(repo: Repo, ci: ClassInfo, attr: str) -> bool:
                         if v[0] == 'ifexp' and all(callee(x) for x in (v[2], v[3])):
                             return True
     return False
+
+
+def is_abstract(repo: Repo, ci: ClassInfo) -> bool:
+    f = repo.find_method(ci, 'forward')
+    if f is None:
+        return False
+    return not any(p.status == 'return' for p in paths(repo, f))
 
 
 def runtime_mutable(repo: Repo, E: Effects) -> Dict[str, list]:
@@ -113,6 +122,13 @@ def runtime_mutable(repo: Repo, E: Effects) -> Dict[str, list]:
                 continue
             entries.append((f'{w.name}.{f.name}' + ('=' if f.kind == 'setter' else ''), f))
     entries.append(('optimize_prec_assignment', repo.fn('optimize_prec_assignment')))
+    # every forward pass is a run-time entry point too
+    for c in repo.classes.values():
+        f = c.methods.get('forward')
+        if f is not None and c.module.name.startswith('plinio.methods') and \
+                any('torch.nn' in str(b) for b in repo.mro(c)) and \
+                not repo.is_subclass(c, dnas.qualname):
+            entries.append((f'{c.name}.forward', f))
     for label, f in entries:
         first = 'p:' + f.params[0] if f.cls is None else 'self'
         for e in E.closure(f):
@@ -148,6 +164,8 @@ def r17a(ctx, repo: Repo, classes: List[ClassInfo], label: str = ''):
     for ci in sorted(classes, key=lambda c: c.qualname):
         if repo.is_subclass(ci, dnas.qualname):
             continue        # wrapper-level mirrors of the options are constructor arguments
+        if is_abstract(repo, ci):
+            continue        # storage kinds are decided by the concrete subclasses
         kinds = storage_kinds(repo, ci)
         fam = class_family_functions(repo, ci)
         own = [f for c in repo.mro(ci) if isinstance(c, ClassInfo)
@@ -177,6 +195,11 @@ def r17a(ctx, repo: Repo, classes: List[ClassInfo], label: str = ''):
                                        if e.kind == 'setattr' and e.data[0] == SELF]
                                  for m in list(c.methods.values()) + list(c.setters.values()))),
                          ci)
+            if is_abstract(repo, owner) and kinds.get(a) is not None and \
+                    any(storage_kinds(repo, sub).get(a) != kinds.get(a)
+                        for sub in repo.subclasses(owner, strict=True)
+                        if not is_abstract(repo, sub)):
+                owner = ci      # siblings store it differently: judge each concrete class
             key = (owner.name, a)
             if key in reported:
                 continue
